@@ -49,3 +49,10 @@ def efficiency_wei_renumbered(G, p):
     Gp = G[np.ix_(p, p)]
     E2 = efficiency_wei(Gp, False)
     return E1, E2
+
+
+def clustering_coef_bu_renumbered(G, p):
+    C1 = clustering_coef_bu(G)
+    Gp = G[np.ix_(p, p)]
+    C2 = clustering_coef_bu(Gp)
+    return C1, C2
